@@ -372,6 +372,7 @@ def c08(tier, seed, **kw):
                     with_hw=False, n_override=4000 if tier == "quick" else 60000, extra_cases=sweep)
     res["violations"] = res.get("violations", []) + g.get("violations", [])
     res["broken"] = res.get("broken", []) + g.get("broken", [])
+    res["known"] = res.get("known", []) + g.get("known", [])
     res.setdefault("extra", {})["guest_access_cases"] = g.get("cases", 0)
     res["extra"]["guest_access_forms"] = g.get("extra", {}).get("forms_exercised", 0)
     res["rule"] += ("; plus single-instruction guest accesses (every dispatched form with a memory operand, 1/2/4/8/16 bytes) at "
@@ -646,6 +647,26 @@ import isa_cmp
 import instr_gen
 
 
+def mark_store_needs_read(cases, ids, impl, spec, blocks, hs, tag):
+    """KF-C06-store-reads-destination is decided semantically, not by the generator's placement label: a
+    case belongs to it when the specification completes, the implementation returns the permission
+    error class, and - re-run with read permission ADDED to every write-only area - the implementation
+    agrees with the specification on everything"""
+    cand = [(cid, c) for cid, c in zip(ids, cases)
+            if isa_cmp.step_result(impl[cid]).startswith("r err EPerm") and isa_cmp.step_result(spec[cid]).startswith("r ok")
+            and any(l.startswith("prot ") and l.split()[2] == "2" for l in blocks[cid])]
+    if not cand:
+        return
+    lines2 = []
+    for cid, c in cand:
+        lines2.extend([("prot %s 3" % l.split()[1]) if (l.startswith("prot ") and l.split()[2] == "2") else l for l in blocks[cid]])
+    i2, s2 = axv.run_pair(hs["release"], lines2, False, False, tag + "-wo", mode="spec", keep_x=True)
+    for cid, c in cand:
+        if cid in i2 and cid in s2 and not isa_cmp.compare_impl_spec(c["codename"], i2[cid], s2[cid]) and \
+                isa_cmp.step_result(i2[cid]).startswith("r ok"):
+            c["store_needs_read"] = True
+
+
 def kf_classify(case, code, kind, detail, impl_lines, spec_lines, shift_lines):
     """which listed finding (if any) explains this implementation/spec difference"""
     fam = isa_cmp.family(code)
@@ -670,6 +691,11 @@ def kf_classify(case, code, kind, detail, impl_lines, spec_lines, shift_lines):
             return "KF-C03-noncanonical-target"
     if code == "Idiv_rm64":
         return "KF-C01-idiv64-divisor"
+    # a pure store (the specification completes without loading from the operand) into memory that is
+    # writable but not readable, refused with a permission error because the helper reads the destination first
+    if kind == "spurious-error" and case.get("store_needs_read") and rs.startswith("r ok") and \
+            isa_cmp.step_result(impl_lines).startswith("r err EPerm"):
+        return "KF-C06-store-reads-destination"
     return None
 
 
@@ -692,10 +718,17 @@ PROP_KINDS = {
 # forms whose complete refinement against Spec/ISA.v is a theorem; a form is listed only while the
 # theorem is still present in the Properties file (which the run has just compiled)
 REFINEMENT_THEOREMS = {
-    "Lea_r64_m": ("C01", "C01_lea_r64"), "Mov_rm64_r64": ("C01", "C01_mov_r64_r64"), "Mov_r64_rm64": ("C01", "C01_mov_r64_m64"),
-    "Add_rm64_r64": ("C02", "C02_add_rm64_r64"), "Sub_rm64_r64": ("C02", "C02_sub_rm64_r64"),
-    "Cmp_rm64_r64": ("C02", "C02_cmp_rm64_r64"), "And_rm64_r64": ("C02", "C02_and_rm64_r64"),
-    "Xor_rm64_r64": ("C02", "C02_xor_rm64_r64"), "Push_r64": ("C04", "C04_push_r64"), "Pop_r64": ("C04", "C04_pop_r64"),
+    "Lea_r64_m": ("C01", "C01_lea_r64"), "Mov_rm64_r64": ("C01", "C01_mov_r64_r64"),
+    "Mov_r64_rm64": ("C01", "C01_mov_cmov_r64_rm64"), "Cmovae_r64_rm64": ("C01", "C01_mov_cmov_r64_rm64"),
+    "Cmove_r64_rm64": ("C01", "C01_mov_cmov_r64_rm64"), "Cmovne_r64_rm64": ("C01", "C01_mov_cmov_r64_rm64"),
+    "Div_rm64": ("C06", "C06_div_rm64"), "Idiv_rm64": ("C06", "C06_idiv_rm64_partial"),
+    "Add_rm64_r64": ("C02", "C02_alu_m64_r64"), "Sub_rm64_r64": ("C02", "C02_alu_m64_r64"),
+    "Cmp_rm64_r64": ("C02", "C02_alu_m64_r64"), "And_rm64_r64": ("C02", "C02_alu_m64_r64"),
+    "Xor_rm64_r64": ("C02", "C02_xor_rm64_r64"),
+    "Add_r64_rm64": ("C02", "C02_alu_r64_rm64"), "Sub_r64_rm64": ("C02", "C02_alu_r64_rm64"),
+    "Cmp_r64_rm64": ("C02", "C02_alu_r64_rm64"), "And_r64_rm64": ("C02", "C02_alu_r64_rm64"),
+    "Xor_r64_rm64": ("C02", "C02_xor_r64_rm64"),
+    "Push_r64": ("C04", "C04_push_r64"), "Pop_r64": ("C04", "C04_pop_r64"),
 }
 
 
@@ -727,6 +760,7 @@ def instr_check(prop_id, tier, seed, gen_filter=None, extra_cases=None, with_hw=
     if any(isa_cmp.is_stack(c["codename"]) for c in cases):
         _, shift = axv.run_pair(hs["release"], [l for cid in ids if isa_cmp.is_stack(cid.split(":")[1]) for l in blocks[cid]],
                                 False, False, prop_id + "-shift", mode="specshift")
+    mark_store_needs_read(cases, ids, impl, spec, blocks, hs, prop_id)
     res = dict(cases=len(ids), histogram={}, rule="", samples=[])
     violations, known, hwbad = [], {}, []
     ndiff = 0
